@@ -83,7 +83,8 @@ fn park(sh: &Shared, tag: u64) -> Result<u64, (ErrorCode, String)> {
     match rel {
         Some(Rel::Ret) => Ok(tag),
         Some(Rel::Err(c)) => Err((ErrorCode::try_from(c).unwrap_or(ErrorCode::ApplicationErrorBase), "released with an error".to_string())),
-        Some(Rel::Panic) => panic!("c16: released with a panic"),
+        // the panic payload is a string for even tags and a typed value for odd ones
+        Some(Rel::Panic) => if tag % 2 == 0 { panic!("c16: released with a panic") } else { std::panic::panic_any(tag) },
         None => Err((ErrorCode::Timeout, "gate closed".to_string())),
     }
 }
@@ -210,7 +211,7 @@ fn client_runtime() -> &'static tokio::runtime::Runtime {
 struct Setup { sh: Arc<Shared>, rx: UnboundedReceiver<Ev>, modes: String, addr: std::net::SocketAddr, tasks: Tasks }
 
 /// router, hooks and a live server (on the shared multi-threaded runtime)
-fn start_server(cap: Option<u64>, nmw: u64) -> Result<Setup, String> {
+fn start_server(cap: Option<u64>, nmw: u64, oq: Option<usize>) -> Result<Setup, String> {
     let (tx, rx) = unbounded_channel();
     let sh = Arc::new(Shared { gauge: AtomicUsize::new(0), maxg: AtomicUsize::new(0), mwc: AtomicUsize::new(0), gates: Mutex::new(HashMap::new()), tx });
     let router = build_router(&sh, nmw);
@@ -220,6 +221,8 @@ fn start_server(cap: Option<u64>, nmw: u64) -> Result<Setup, String> {
     let srv = WebSocketServer::new(router).with_offreader_limit(cap.unwrap_or(0) as usize).on_error(move |err| {
         let _ = hook.tx.send(match err { ConnectionError::Saturation { .. } => Ev::Sat, ConnectionError::HandlerPanic { .. } => Ev::Pan, _ => Ev::OtherErr });
     });
+    // `oq`: a tiny outbound queue, so that replies are produced faster than the writer drains them
+    let srv = match oq { Some(q) => srv.with_outbound_capacity(q), None => srv };
     let (addr, task) = net::runtime().block_on(async move {
         let l = tokio::time::timeout(T_CONN, WebSocketServer::listen("127.0.0.1:0")).await.map_err(|_| "timeout:ws-bind".to_string())?.map_err(|e| format!("ws-bind:{e}"))?;
         let addr = l.local_addr().map_err(|e| format!("ws-addr:{e}"))?;
@@ -228,7 +231,7 @@ fn start_server(cap: Option<u64>, nmw: u64) -> Result<Setup, String> {
     Ok(Setup { sh, rx, modes, addr, tasks: Tasks(vec![task]) })
 }
 
-async fn run_script(cap: Option<u64>, nmw: u64, events: &[Event], setup: Setup) -> Result<String, String> {
+async fn run_script(cap: Option<u64>, nmw: u64, events: &[Event], setup: Setup, pipe: bool) -> Result<String, String> {
     let Setup { sh, rx, modes, addr, tasks } = setup;
     let (ws, _) = tokio::time::timeout(T_CONN, tt::connect_async_with_config(format!("ws://{addr}/repe"), None, true)).await.map_err(|_| "timeout:raw-connect".to_string())?.map_err(|e| format!("raw-connect:{e}"))?;
     let mut p = Peer { ws, rx, log: vec![], started: HashSet::new(), exited: HashSet::new(), inline_ran: HashSet::new(), sat: 0, pan: 0, other: 0, dead: None };
@@ -239,9 +242,12 @@ async fn run_script(cap: Option<u64>, nmw: u64, events: &[Event], setup: Setup) 
     let mut live = 0u64;          // admissions observed minus exits performed
     let mut early = 0usize;       // refusals retried because the slot of a finished handler was not yet released
     let mut aborted = false;
+    let mut slow_refusal_ms = 0u64;
+    // `pipe`: requests sent ahead in one write (id -> log position at that moment)
+    let mut presend: HashMap<u64, usize> = HashMap::new();
     let other = |ec: u32| format!("x{}", hx(X_EC_BASE + ec as u64));
 
-    for ev in events {
+    for (evi, ev) in events.iter().enumerate() {
         if aborted { outs.push(format!("x{}", hx(X_SKIPPED))); continue; }
         match ev {
             Event::Arrive { id, notify, route } => {
@@ -260,11 +266,33 @@ async fn run_script(cap: Option<u64>, nmw: u64, events: &[Event], setup: Setup) 
                 let (gtx, grx) = std::sync::mpsc::channel();
                 sh.gates.lock().unwrap_or_else(|e| e.into_inner()).insert(id, grx);
                 rel_tx.insert(id, gtx);
+                // at the cap: this request and the requests that follow it back to back leave in
+                // one write (none of them is read before all are out)
+                if pipe && !notify && !presend.contains_key(&id) && cap.is_some_and(|c| live >= c) {
+                    let from = p.log.len();
+                    let mut burst = vec![(id, f.clone())];
+                    for e2 in &events[evi + 1..] {
+                        match e2 {
+                            Event::Arrive { id: id2, notify: false, route: r2 } if r2 != "i" => burst.push((*id2, frame(0, *id2, path_of(r2).ok_or("badcase:route")?, id2.to_string().as_bytes()))),
+                            _ => break,
+                        }
+                    }
+                    if burst.len() > 1 {
+                        for (id2, f2) in burst {
+                            presend.insert(id2, from);
+                            match tokio::time::timeout(T_CONN, p.ws.feed(WsMsg::Binary(f2))).await { Ok(Ok(())) => {} Ok(Err(e)) => return Err(format!("raw-feed:{e}")), Err(_) => return Err("timeout:raw-feed".into()) }
+                        }
+                        match tokio::time::timeout(T_CONN, p.ws.flush()).await { Ok(Ok(())) => {} Ok(Err(e)) => return Err(format!("raw-flush:{e}")), Err(_) => return Err("timeout:raw-flush".into()) }
+                    }
+                }
                 let mut tries = 0;
                 loop {
-                    let (from, sat0) = (p.log.len(), p.sat);
-                    p.send(f.clone()).await?;
+                    let (mut from, sat0) = (p.log.len(), p.sat);
+                    let t_sent = Instant::now();
+                    match presend.get(&id) { Some(f0) if tries == 0 => from = *f0, _ => p.send(f.clone()).await? }
                     let ok = p.pump(Instant::now() + T_STEP, |p| p.started.contains(&id) || if notify { p.sat > sat0 } else { p.find(from, id).is_some() }).await;
+                    // a request refused at the cap is answered at once (the reader does not wait for a slot)
+                    if ok && !notify && !p.started.contains(&id) { slow_refusal_ms = slow_refusal_ms.max(t_sent.elapsed().as_millis() as u64); }
                     p.drain();
                     if !ok { aborted = true; outs.push(format!("x{}", hx(X_TIMEOUT))); break; }
                     if p.started.contains(&id) { live += 1; outs.push("a".into()); break; }
@@ -328,6 +356,7 @@ async fn run_script(cap: Option<u64>, nmw: u64, events: &[Event], setup: Setup) 
         if resp.is_empty() { "-".into() } else { resp.join(",") },
         hx((p.sat - early.min(p.sat)) as u64), hx(p.pan as u64), alive as u8, modes, hx(early as u64));
     if p.other > 0 { obs.push_str(&format!(" other={}", hx(p.other as u64))); }
+    if slow_refusal_ms > 150 { obs.push_str(&format!(" slowrej={}", hx(slow_refusal_ms))); }
     if let Some(d) = &p.dead { obs.push_str(&format!(" dead={}", clean(d))); }
     drop(tasks);
     Ok(obs)
@@ -339,14 +368,16 @@ fn run_case(line: &str) -> String {
         let cap = match f.get("cap")?.as_str() { "-" => None, s => Some(ph(s)?) };
         Some((cap, ph(f.get("mw")?)?, parse_events(f.get("ev")?)?))
     })();
+    let oq = f.get("oq").and_then(|s| ph(s)).map(|q| q as usize);
+    let pipe = f.get("pipe").map(|s| s == "1").unwrap_or(false);
     let Some((cap, nmw, events)) = parsed else { return "crash=badcase:parse".into() };
     if cap == Some(0) || nmw > 8 { return "crash=badcase:cap-or-mw".into(); }
     let r = guard(move || {
-        let setup = start_server(cap, nmw)?;
+        let setup = start_server(cap, nmw, oq)?;
         // the gates close when `sh` and the script's senders are gone, so every
         // parked handler leaves even when the script is cut short
         client_runtime().block_on(async {
-            match tokio::time::timeout(T_CASE, run_script(cap, nmw, &events, setup)).await { Ok(r) => r, Err(_) => Err("timeout:case".into()) }
+            match tokio::time::timeout(T_CASE, run_script(cap, nmw, &events, setup, pipe)).await { Ok(r) => r, Err(_) => Err("timeout:case".into()) }
         })
     });
     match r { Ok(Ok(obs)) => obs, Ok(Err(e)) => format!("crash={}", clean(e)), Err(()) => "crash=panic".into() }
@@ -475,6 +506,24 @@ fn gen_cases(seed: u64, thorough: bool) -> Vec<String> {
     let nwalk = if thorough { 40 } else { 8 };
     for cap in &caps {
         for k in 0..nwalk { let len = rng.range(5, if thorough { 120 } else { 60 }) as usize; out.push(random_walk(&mut rng, *cap, k % 3, len)); }
+    }
+    // bursts: at the cap, 2..96 requests leave the client in one write while the server's outbound
+    // queue holds 1..4 messages: each is refused with its own id, the connection lives on
+    let nb = if thorough { 24 } else { 6 };
+    for k in 0..nb {
+        let c = 1 + (k % 3) as u64;
+        let mut s = Script::new(Some(c), 0x400);
+        for _ in 0..c { s.park(&mut rng, false); }
+        let n = if k % 2 == 0 { rng.range(40, 96) } else { rng.range(2, 12) };
+        for _ in 0..n { s.park(&mut rng, false); }
+        s.inline(&mut rng, false);
+        let i = rng.below(s.live.len() as u64) as usize; let h = some_how(&mut rng); s.exit(i, h);
+        s.park(&mut rng, false);
+        for _ in 0..rng.range(2, 20) { s.park(&mut rng, false); }
+        s.inline(&mut rng, true);
+        while !s.live.is_empty() { let h = some_how(&mut rng); s.exit(0, h); }
+        s.inline(&mut rng, false);
+        out.push(format!("{} oq={} pipe=1", s.line((k % 3) as u64), hx(1 + (k as u64 / 2) % 4)));
     }
     out.into_iter().enumerate().map(|(i, c)| format!("i={i} {c}")).collect()
 }
